@@ -83,6 +83,7 @@ def build_call(name, rng, m, g, spec):
     if name == 'upwindMean':
         return (lambda a: pf.upwindMean(a[0], a[1])), [phi, uf], []
     if name == 'boundaryConditionsTerm':
+        BC.left.c = np.asarray(BC.left.c) + 0.25       # pending edit: the dirty flag is raised and a pure builder must leave it raised
         return (lambda a: pf.boundaryConditionsTerm(a[0])), [BC], []
     if name == 'cellValuesWithBoundaries':
         return (lambda a: pf.boundary.cellValuesWithBoundaries(a[0], a[1])), [vals.copy(), BC], []
@@ -148,10 +149,13 @@ def run_case(case):
             fn2, args2, allowed2 = build_call(name, rng, m, g, spec)      # equal inputs, separate objects
             visible = [a for a in allowed if not isinstance(a, str)]
             if 'SOLUTION' in allowed:
-                # solvePDE: everything but the solution variable must stay byte-identical
+                # solvePDE: everything but the solution variable must stay byte-identical (incl. the caller's list of terms)
+                nterms = len(args[1])
                 s0 = snapshot(args[1:] + [m])
                 ret = fn(args)
                 s1 = snapshot(args[1:] + [m])
+                if len(args[1]) != nterms:
+                    bad.append(('input-modified', 'solvePDE changed the length of the caller\'s term list from %d to %d' % (nterms, len(args[1]))))
             else:
                 s0 = snapshot(args + [m], visible_only_for=visible)
                 ret = fn(args)
